@@ -72,3 +72,13 @@ SPECS["C22"] = {
     "assumptions": ["IEEE-754 round-to-nearest-even for +,-,*,/ as emitted by rustc; f64::max per std docs (NaN-ignoring); NumCast f64->int = range check + truncation",
                     "contracts: usize::next_power_of_two, <T as NumCast>::from::<f64>, OptionExt::context, Into<u32>, Vec index"],
 }
+
+SPECS["C24"] = {
+    "parts": [{"engine": "m", "module": "c24"}],
+    "bounds": "one element per VR class: AT (1-2 symbolic tags), US/SS/UL/SL (2 full-width symbolic items), LO and PN (one 3-byte symbolic printable ASCII string), "
+              "OB/UN (3 symbolic bytes), and the empty value for US/LO/AT/OB/PN",
+    "outside": "object level (key format and ascending order come from DicomJson<Tag> + BTreeMap iteration; the key serializer is encoded, the map iteration is not), "
+               "sequences, FL/FD (non-finite handling), 64-bit VRs, the JSON text layer of serde_json, the base64 alphabet (third-party crate; only WHAT is encoded is checked)",
+    "assumptions": ["serde Serializer/SerializeMap/SerializeSeq/SerializeStruct calls are contracts that record events", "core::fmt template decoding per library/core/src/fmt/mod.rs",
+                    "Display of Tag is (GGGG,EEEE) upper-case (Kani harness of C14)", "each case cross-checked against the real serde_json output on a solver-chosen input"],
+}
